@@ -22,12 +22,13 @@ Qed.
 
 Section Rows.
 Context {A : Type}.
+Variable cf : bool.
 Implicit Types (cs : list (option A)) (gs : list (A * nat)) (st : option (bridge A)) (bs : list (rblock A)).
 
 (* ---------------------------------------------------------------- backward directional fill *)
 Lemma block_bwd_ok limit st last run b out st' : 0 <= limit ->
-  R limit st last run -> rb_ok b = true -> bwd_block_dom limit b = true ->
-  M_dir_block false limit st b = (out, st') ->
+  R limit st last run -> rb_ok b = true -> bwd_block_dom cf limit b = true ->
+  M_dir_block cf false limit st b = (out, st') ->
   rev out = S_ffill_go limit last run (rev (rb_cells b)) /\
   R limit st' (fst (S_carry last run (rev (rb_cells b)))) (snd (S_carry last run (rev (rb_cells b)))).
 Proof.
@@ -35,24 +36,24 @@ Proof.
   - cbn [M_dir_block rb_cells rev app] in *.
     destruct (block1_ok limit st last run anyna c out st' Hl HR Hok HM) as [-> HR']. split; [|exact HR'].
     destruct c; reflexivity.
-  - apply (block2_bwd_ok limit st last run anyna cs out st' Hl HR Hok Hdom HM).
+  - apply (block2_bwd_ok cf limit st last run anyna cs out st' Hl HR Hok Hdom HM).
 Qed.
 
 Lemma row_bwd_go limit bs : 0 <= limit -> forall st last run, R limit st last run ->
-  row_ok bs = true -> bwd_dom limit bs = true ->
-  concat (map (@rev (option A)) (M_dir_row_go false limit st bs))
+  row_ok bs = true -> bwd_dom cf limit bs = true ->
+  concat (map (@rev (option A)) (M_dir_row_go cf false limit st bs))
   = S_ffill_go limit last run (concat (map (fun b => rev (rb_cells b)) bs)).
 Proof.
   intros Hl. induction bs as [|b t IH]; intros st last run HR Hok Hdom; [reflexivity|].
   cbn [row_ok forallb] in Hok. apply andb_true_iff in Hok as [Hb Ht].
   cbn [bwd_dom forallb] in Hdom. apply andb_true_iff in Hdom as [Hd Hdt].
-  cbn [M_dir_row_go]. destruct (M_dir_block false limit st b) as [o st'] eqn:E.
+  cbn [M_dir_row_go]. destruct (M_dir_block cf false limit st b) as [o st'] eqn:E.
   destruct (block_bwd_ok _ _ _ _ _ _ _ Hl HR Hb Hd E) as [Ho HR'].
   cbn [map concat]. rewrite S_ffill_go_app, Ho. f_equal. apply IH; assumption.
 Qed.
 
-Theorem dir_row_backward limit bs : 0 <= limit -> row_ok bs = true -> bwd_dom limit bs = true ->
-  M_dir_row false limit bs = S_bfill limit (row_cells bs).
+Theorem dir_row_backward limit bs : 0 <= limit -> row_ok bs = true -> bwd_dom cf limit bs = true ->
+  M_dir_row cf false limit bs = S_bfill limit (row_cells bs).
 Proof.
   intros Hl Hok Hdom. unfold M_dir_row, S_bfill, S_ffill, row_cells.
   rewrite concat_rev_rev. f_equal.
@@ -64,8 +65,8 @@ Proof.
 Qed.
 
 Theorem dir_axis1_backward limit nrows (blocks : list (block A)) : 0 <= limit ->
-  frame_wf nrows blocks = true -> frame_bwd_dom limit nrows blocks = true ->
-  M_dir_axis1 false limit nrows blocks = map (S_bfill limit) (frame_rows nrows blocks).
+  frame_wf nrows blocks = true -> frame_bwd_dom cf limit nrows blocks = true ->
+  M_dir_axis1 cf false limit nrows blocks = map (S_bfill limit) (frame_rows nrows blocks).
 Proof.
   intros Hl Hwf Hdom. unfold M_dir_axis1, frame_rows. rewrite map_map. apply map_ext_in. intros i Hi.
   unfold frame_bwd_dom in Hdom. rewrite forallb_forall in Hdom. specialize (Hdom i Hi).
@@ -74,11 +75,29 @@ Proof.
 Qed.
 
 (* no limit: the backward refinement holds without any guard *)
-Lemma bwd_dom_nolimit bs : bwd_dom 0 bs = true.
-Proof. unfold bwd_dom. apply forallb_forall. intros [anyna c|anyna cs] _; reflexivity. Qed.
+Lemma bwd_dom_nolimit bs : bwd_dom cf 0 bs = true.
+Proof. unfold bwd_dom. apply forallb_forall. intros [anyna c|anyna cs] _; [reflexivity|]. cbn. destruct cf; reflexivity. Qed.
 
-Theorem dir_row_backward_nolimit bs : row_ok bs = true -> M_dir_row false 0 bs = S_bfill 0 (row_cells bs).
+(* the repaired code (count from the first yielded slice) needs no guard at all *)
+Lemma bwd_dom_repaired limit bs : cf = true -> bwd_dom cf limit bs = true.
+Proof. intros ->. unfold bwd_dom. apply forallb_forall. intros [anyna c|anyna cs] _; reflexivity. Qed.
+
+Theorem dir_row_backward_nolimit bs : row_ok bs = true -> M_dir_row cf false 0 bs = S_bfill 0 (row_cells bs).
 Proof. intros Hok. apply dir_row_backward; [lia|assumption|apply bwd_dom_nolimit]. Qed.
+
+End Rows.
+
+Theorem dir_row_backward_repaired {A} limit (bs : list (rblock A)) : 0 <= limit -> row_ok bs = true ->
+  M_dir_row true false limit bs = S_bfill limit (row_cells bs).
+Proof. intros Hl Hok. apply dir_row_backward; [assumption|assumption|apply bwd_dom_repaired; reflexivity]. Qed.
+
+Theorem decompositions {A} (l : list (option A)) :
+  (exists k0 gs, l = nones k0 ++ flat gs) /\ (exists gs kend, l = flatb gs ++ nones kend).
+Proof. split; [apply decompose | apply decompose_b]. Qed.
+
+Section Sided.
+Context {A : Type}.
+Implicit Types (cs : list (option A)) (gs : list (A * nat)) (st : option (bridge A)) (bs : list (rblock A)).
 
 (* ---------------------------------------------------------------- sided fills *)
 Definition S_lead_if (active : bool) (v : A) cs : list (option A) := if active then S_leading v cs else cs.
@@ -214,12 +233,12 @@ Proof.
     + destruct (existsb_sel_false_b _ E gs kend eq_refl) as [-> _]. reflexivity.
 Qed.
 
-End Rows.
+End Sided.
 
 (* the guards of the refinement theorems are satisfiable by frames with missing cells, 2-D blocks and a positive limit *)
 Example guards_nontrivial :
   let blocks := [B1 [None; Some 1]; B2 [[None; Some 2; None]; [Some 3; None; None]]; B1 [Some 4; None]] in
-  frame_wf 2 blocks = true /\ frame_bwd_dom 2 2 blocks = true /\
-  M_dir_axis1 false 2 2 blocks = [[Some 2; Some 2; Some 2; Some 4; Some 4]; [Some 1; Some 3; None; None; None]] /\
-  M_dir_axis1 true 1 2 blocks = [[None; None; Some 2; Some 2; Some 4]; [Some 1; Some 3; Some 3; None; None]].
+  frame_wf 2 blocks = true /\ frame_bwd_dom false 2 2 blocks = true /\
+  M_dir_axis1 false false 2 2 blocks = [[Some 2; Some 2; Some 2; Some 4; Some 4]; [Some 1; Some 3; None; None; None]] /\
+  M_dir_axis1 false true 1 2 blocks = [[None; None; Some 2; Some 2; Some 4]; [Some 1; Some 3; Some 3; None; None]].
 Proof. vm_compute. repeat split. Qed.
